@@ -10,7 +10,9 @@ RULE = ('construction monitor: generated plans (random background of wire/child/
         'child, duplicate wire by wire()/wires()/rename/reparent/reparentAndRename/Interface expansion x4), plus the same plan with a '
         'fresh name instead of the fault; integrity monitor: every catalogue/storage/clock/FP block x configurations x nesting depth '
         'x checked sub-hierarchy x {complete, driver omitted, driver disconnected, output driver disconnected, undriven extra port '
-        'at depth L}. non-trivial = the plan/case contains a fault (accept-only ones are trivial); distinct by content hash')
+        'at depth L}, plus histories on one live hierarchy (check / disconnect a driver / check twice / re-attach / check, and the '
+        'same starting from a faulty build); plans also contain disconnectWireFromLogicObject steps (primitive driver released and '
+        'replaced, structural block or unrelated object refused). non-trivial = the plan/case contains a fault (accept-only ones are trivial); distinct by content hash')
 SHARDS = {'quick': 1, 'thorough': 16}
 TIMEOUT = {'quick': 600, 'thorough': 3000}
 MIN_NONTRIVIAL = {'quick': 5000, 'thorough': 100000}
@@ -28,6 +30,10 @@ def assumptions(run):
     run.assume('integrity clause judged on in/out ports attached to ordinary Wire objects; ports detached by '
                'disconnectWireFromLogicObject (port.wire None) and InOut/BidirWire ports are outside the statement: a case whose '
                'only defect is a detached port is excluded, never judged')
+    run.assume('disconnectWireFromLogicObject(w, obj) releases w only when obj is the primitive whose own port is the source (or a '
+               'primitive reader); for a structural block or an unrelated object it is refused ("wire and object are not connected") '
+               'and the source stays -- otherwise the inner primitive stays attached and a second driver would be accepted')
+    run.assume('the verdict of checkIntegrity depends on the hierarchy as it is when called, not on earlier calls in the process')
     run.assume('a hierarchy is any Logic object handed to checkIntegrity: drivers outside the checked sub-hierarchy still count as drivers')
 
 
@@ -137,6 +143,28 @@ def judge_case(run, case, res):
     return False
 
 
+def judge_history(run, case, res):
+    run.ev(len(res['checks']))
+    run.count('integrity_histories')
+    run.nt(stable_hash(case))
+    bf = run.extra.setdefault('integrity_history_checks', {})
+    for phase, exp, raised in res['checks']:
+        k = '%s:%s' % (phase, 'must_raise' if exp else 'must_accept')
+        bf[k] = bf.get(k, 0) + 1
+    o = res['outcome']
+    if o == 'ok':
+        return
+    if o == 'library_internal':
+        run.count('integrity_histories_skipped_block_internally_undriven')
+        return
+    if o == 'harness_mismatch':
+        run.inconclusive.append('integrity history: plan table and object-graph walk disagree for %s%r step %s' % (case['block'], case['cfg'], res['step']))
+        return
+    fields = dict(outcome=o, fault='history', phase=res['phase'], dut_structural=res['info']['dut_structural'])
+    run.violation('c11_integrity_' + o, fields, case, expected='raise' if o == 'missed' else 'return', observed=res.get('raised') or 'returned',
+                  what='checkIntegrity %s in a history (%s, step %d of %r): %s%r depth=%d' % (o, res['phase'], res['step'], case['steps'], case['block'], case['cfg'], case['depth']))
+
+
 def run_integrity(run, tier, seed, shard, deadline):
     items = integrity_workload(tier, seed, shard)
     per_block = {}
@@ -168,6 +196,14 @@ def run_integrity(run, tier, seed, shard, deadline):
             if run.counters['integrity_cases'] % 701 == 0:
                 run.sample(dict(monitor='integrity', block=name, cfg=cfg, depth=case['depth'], check_at=case['check_at'], fault=case['fault'],
                                 expected=res['expected'], raised=res['raised']))
+        if not internal:
+            for case in c11integ.history_cases_for(src, name, cfg, rnd, tier):
+                try:
+                    res = c11integ.run_history(case)
+                except Exception as e:
+                    run.inconclusive.append('integrity history harness crashed on %s%r: %r' % (name, cfg, e))
+                    continue
+                judge_history(run, case, res)
         if run.too_many:
             break
     run.extra['integrity_cases_per_block'] = per_block
@@ -186,6 +222,11 @@ def coverage_floor(run, tier):
     for k in ('complete:must_accept', 'omit:must_raise', 'disc_in:must_raise', 'disc_out:must_raise', 'port:must_raise', 'port:must_accept'):
         if bf.get(k, 0) < 20:
             run.inconclusive.append('integrity class %s judged only %d times' % (k, bf.get(k, 0)))
+    hc = run.extra.get('integrity_history_checks', {})
+    for k in ('initial:must_accept', 'after_disconnect:must_raise', 'repeat_after_disconnect:must_raise', 'after_reattach:must_accept',
+              'initial:must_raise', 'repeat_initial:must_raise'):
+        if hc.get(k, 0) < 20:
+            run.inconclusive.append('integrity history check class %s judged only %d times' % (k, hc.get(k, 0)))
     if run.extra.get('seq_notes'):
         run.inconclusive.append('sequence harness notes: %s' % run.extra['seq_notes'][:2])
 
@@ -211,6 +252,11 @@ def replay(run, case):
         res = c11seq.run_plan(c['plan'])
         print('replay sequence kind=%s faulty=%s -> %s %s' % (c.get('kind'), c.get('faulty'), res['outcome'], res.get('detail', '')))
         bad = res['outcome'] != 'ok'
+    elif c.get('monitor') == 'integrity_history':
+        res = c11integ.run_history(c)
+        print('replay integrity history %s%r depth=%d steps=%r: checks (phase, must raise, raised)=%r -> %s' % (
+            c['block'], c['cfg'], c['depth'], c['steps'], res['checks'], res['outcome']))
+        bad = res['outcome'] in ('missed', 'false_alarm')
     else:
         c = dict(c)
         res = c11integ.run_case(c)
